@@ -1,7 +1,7 @@
 """C15: queries are pure, optimize changes only vertex poses (frame conditions of GraphSLAM imposed on recorded executions)."""
 from .. import scenario
 
-TEMPLATES = ['r2', 'r3', 'se2', 'se3', 'se2c', 'se3c', 'r2c', 'mixed', 'se2fix', 'se2alias', 'se2shared', 'r3shared', 'r2lonely', 'se3lonely', 'se2big', 'se2plain', 'se3reg', 'se2plainc', 'se2desc', 'se3desc', 'se3neg', 'se3rough', 'se2rim', 'se2hard']
+TEMPLATES = ['r2', 'r3', 'se2', 'se3', 'se2c', 'se3c', 'r2c', 'mixed', 'se2fix', 'se2alias', 'se2shared', 'r3shared', 'r2lonely', 'se3lonely', 'se2big', 'se2plain', 'se3reg', 'se2plainc', 'se2desc', 'se3desc', 'se3neg', 'se3rough', 'se2rim', 'se2hard', 'se3noid', 'se2inplace', 'se3inplace']
 
 
 def model_check(run, thorough):
@@ -87,7 +87,7 @@ def check(run):
     # file-expressible graph, whatever the seed generated
     def qy(name, t=1):
         return {'op': 'Query', 'q': name, 'target': t, 'maxIter': 0, 'fixFirst': False, 'verbose': False, 'tol': '-', 'idx': 0, 'flag': False}
-    for tname in ('se3neg', 'se3reg', 'se2plain', 'se3rough'):
+    for tname in ('se3neg', 'se3reg', 'se2plain', 'se3rough', 'se3noid', 'se2inplace'):
         behaviours.append((tname, [qy('to_g2o')] + [qy(nm, t) for t in range(1, 13) for nm in ('edge_to_g2o', 'edge_error')] + [qy('calc_chi2'), qy('to_g2o'), qy('calc_chi2')]))
         behaviours.append((tname, [qy(nm, t) for t in range(1, 9) for nm in ('vertex_to_g2o', 'pose_ops', 'edge_jacobians', 'edge_contribs', 'pose_copy')] + [qy('equals'), qy('plot'), qy('calc_chi2')]))
     # an edge on the rim of its error's domain: numerical differentiation meets NaN there; every query, repeated
